@@ -70,12 +70,27 @@ def corner_scenarios(chk: Check) -> list[dict]:
         count[s.tool] = count.get(s.tool, 0) + 1
         add(f"C15-sast-{s.tool}-{count[s.tool]}", {"code.py": s.input}, ["--codemod-include", s.codemod] + _sast_option(s),
             resfiles={"results.json": seeds.results_for_cli(s.tool, s.results)}, what=f"SAST {s.tool} {s.codemod}")
+    # SAST codemods that ALSO add a dependency (a changeset for the manifest in a tool's result), one seed each
+    seen = set()
+    for s in seeds.load():
+        if not (s.sast and s.changes and s.results and s.ext == "py" and not s.files) or s.codemod in seen:
+            continue
+        if s.codemod.split("/")[-1] not in ("url-sandbox", "sandbox-process-creation", "use-defusedxml", "harden-pickle-load", "flask-enable-csrf-protection"):
+            continue
+        seen.add(s.codemod)
+        add(f"C15-sastdep-{len(seen)}", {"code.py": s.input, "requirements.txt": "requests\n"}, ["--codemod-include", s.codemod] + _sast_option(s),
+            resfiles={"results.json": seeds.results_for_cli(s.tool, s.results)}, what=f"SAST {s.tool} {s.codemod} with a manifest")
     return out
 
 
 def run(chk: Check) -> None:
     vectors = runspace.enumerate_vectors(chk)
     sample = runspace.sample_covering(chk, vectors, chk.pick(70, 900))
+    # a manifest with trailing blank lines, for programs whose fix adds a dependency
+    bt = [v for v in vectors if v["manifest"] == "requirements-blanktail" and v["layout"] == "lf" and len(v["queue"]) == 1 and v["workers"] == 1
+          and v["queue"][0].split("/")[-1] in ("url-sandbox", "sandbox-process-creation", "use-defusedxml", "harden-pickle-load")]
+    bt.sort(key=runspace.vkey)
+    sample += [v for v in bt if v not in sample][: chk.pick(6, 40)]
     scenarios = [runspace.scenario_for(v, f"C15-{i}") for i, v in enumerate(sample)] + corner_scenarios(chk)
     for scn, res, verdicts in runspace.run_and_validate(chk, scenarios):
         st = res["steps"][0]
